@@ -40,7 +40,7 @@ STD_OUT = ["succeeded", "failed", "started", "submitted", "submit-failed", "expi
 # custom outputs: label -> message (messages are free text in cylc)
 MSG_OK = ["x", "data ready", "file_1 done", "out-1", "ready2go", "a b c", "done", "succeeded again",
           "1", "all systems go", "step-2 finished", "ok_", "failed badly", "it's done", "50% there", "a.b", "x, y"]
-MSG_NONWORD_END = ["all done!", "ready.", "50%", "done?", "(ok) "]
+MSG_NONWORD_END = ["all done!", "ready.", "50%", "done?", "(ok)"]
 MSG_SPECIAL = ['say "hi" now', 'back\\slash', 'a|b', 'a&b', 'f(x)', 'p/q', 'tab\there']
 DT_FORMATS = [  # (time zone, custom dump format, initial point)
     ("Z", None, "20200101T0000Z"),
@@ -569,20 +569,25 @@ def run_config(c, workdir):
 
 def graph_mangle_class(c):
     """input class of the graph parser's implicit ':succeeded' rewrite hitting another node:
-    an unqualified, offset-free node X next to a node named X<sep>... (sep one of - + % @) at a \b boundary"""
+    the name X of an unqualified, offset-free node also occurs \\b-delimited (and not followed
+    by '[' or ':') inside another node of the expression - in its name (X-..., X+...) or in its
+    qualifier (a:X, a:out-X)"""
+    import re
+    texts = [node_text(a, c["mode"]) for a in c["atoms"]]
+    alias = {"expire", "submit", "submit-fail", "start", "succeed", "fail", "finish"}
     for a in c["atoms"]:
+        if a.get("label") in alias:
+            for b in c["atoms"]:
+                if b is not a and b["name"] == a["name"] and b.get("off") == a.get("off") \
+                        and b.get("icp_rel") == a.get("icp_rel") and (b.get("label") or "").startswith(a["label"] + "-"):
+                    return True         # a:submit next to a:submit-fail(ed)
+    for a, t in zip(c["atoms"], texts):
         if a.get("label") or a.get("off") is not None or a.get("icp_rel"):
             continue
-        x = a["name"]
-        for b in c["atoms"]:
-            nm = b["name"]
-            i = nm.find(x)
-            while nm != x and i >= 0:
-                before, after = nm[:i], nm[i + len(x):]
-                if after and not _isword(after[0]) and (not before or not _isword(before[-1])) \
-                        and _isword(x[0]) and _isword(x[-1]):
-                    return True
-                i = nm.find(x, i + 1)
+        pat = re.compile(r"\b%s\b(?![\[:])" % re.escape(a["name"]))
+        for t2 in texts:
+            if t2 != t and pat.search(t2 + "?"):
+                return True
     return False
 
 
@@ -615,6 +620,8 @@ def defect_class(keys_in_order):
             if (P[0] == "-" or not u or not _isword(u[-1])) and (not w or not _isword(w[0])):
                 if u == "-" and not w:
                     return "neg-point-collision"
+                if u == "-":
+                    return "neg-point-and-output-prefix-collision"
                 if not u:
                     return "output-prefix-collision"
                 return "collision-other"
@@ -765,6 +772,8 @@ class PrereqStream(Stream):
                 return "op %d %s raised %s" % (j, op[0], o["op_exc"])
             if op[0] == "satisfy":
                 for i in op[1]:
+                    if i >= n and keytab[i] in keys:
+                        i = keys.index(keytab[i])      # a "foreign" key that happens to be one of ours
                     if i < n and i not in exp_sat:
                         exp_sat.add(i)
                         if op[3]:
